@@ -93,7 +93,7 @@ def check(cx):
                            "DataType::%s is called without the zero-divisor check: integer x %s 0 panics (D11)" % (name, "/" if name == "div" else "%"))
         # no other caller divides DataType values
         for name in ("div", "rem"):
-            for c in K.callers_of(p, "types::DataType::" + name):
+            for c in K.callers_of(p, "types::DataType::" + name, {fe.id}):
                 cx.verdict(c == fe.id, r2b, "caller:%s<-%s" % (name, c), p.fn(c).where(), "only eval_binary_op divides",
                            "%s divides DataType values without the evaluator's zero check" % c)
 
